@@ -119,6 +119,7 @@ type Sim struct {
 	seq      uint64
 	steps    int
 	yields   int64
+	spins    int64 // for-loop iterations since the last scheduling point (see Spin)
 	switches int
 	hash     uint64
 	sig      uint64
@@ -545,6 +546,7 @@ func (s *Sim) yield(site int32) {
 	if s.poisoned.Load() {
 		runtime.Goexit()
 	}
+	s.spins = 0
 	th := s.running
 	if site >= 0 {
 		if int(site) >= len(siteHits) {
@@ -581,6 +583,24 @@ func (s *Sim) yield(site int32) {
 }
 
 // ---- hooks called by instrumented code -------------------------------------
+
+// SpinLimit is the number of for-loop iterations the code under test may run between two scheduling points.
+const SpinLimit = 1000000
+
+// Spin is called at the top of every for-loop iteration of instrumented code. A loop that runs SpinLimit
+// iterations without reaching any scheduling point cannot be waiting for another thread (nothing else runs
+// meanwhile): it is reported as a panic of the spinning thread instead of hanging the worker process.
+func Spin() {
+	s := cur.Load()
+	if s == nil {
+		return
+	}
+	s.spins++
+	if s.spins > SpinLimit {
+		s.spins = 0
+		panic(fmt.Sprintf("simrt: a loop ran %d iterations without reaching a scheduling point (unbounded loop)", SpinLimit))
+	}
+}
 
 // Y is a statement-level yield point.
 func Y(site int32) {
